@@ -70,6 +70,33 @@ def _history_first(res):
     return out or res
 
 
+def _self_tests(ctx, tests):
+    """lib.self_test for several corruptions at once: the corrupted traces are validated side by side (one TLC process
+    each, in parallel) instead of one after the other; same bookkeeping and the same verdict (not rejected => exit 2)."""
+    files = []
+    for k, (trace_file, mutate, name, ncases) in enumerate(tests):
+        lines = lib.read_lines(trace_file)
+        idx = [i for i, l in enumerate(lines) if '"ev":"Case"' in l]
+        end = idx[ncases] if len(idx) > ncases else len(lines)
+        recs = [json.loads(l) for l in lines[:end]]
+        mut = mutate([json.loads(json.dumps(r)) for r in recs])
+        if mut == recs:
+            raise lib.Infra("self-test mutation '%s' changed nothing" % name)
+        p = os.path.join(ctx.scratch, "selftest_c15_%d.ndjson" % k)
+        with open(p, "w") as f:
+            for r in mut:
+                f.write(json.dumps(r, separators=(",", ":")) + "\n")
+        files.append(p)
+    res = dict(lib.validate(ctx, TRACE[0], TRACE[1], files, count=False))
+    for p, (_, _, name, _) in zip(files, tests):
+        bad = res.get(p, [])
+        ctx.cov["self_test"].append({"name": name, "rejected_lines": bad[:5], "rejected": bool(bad)})
+        if not bad:
+            raise lib.Infra("binding self-test '%s' was NOT rejected by %s: the trace specification does not constrain "
+                            "the recorded behaviour" % (name, TRACE[0]))
+        lib.log("self-test '%s': rejected as required (line %s)" % (name, bad[0]))
+
+
 def rerun(ctx, case_lines):
     """Run one case alone on the real code and validate it; True if rejected again."""
     d = ctx.sub("rerun")
@@ -129,6 +156,8 @@ def run(ctx):
                 out.append(r)
         return out
 
+    tests = []
+
     def wrong_value(recs):
         recs = clean(recs)
         k = 0
@@ -141,7 +170,7 @@ def run(ctx):
                     f["k"] = "v" if f["k"] != "list" else "list"
                     return recs
         return recs
-    lib.self_test(ctx, TRACE[0], TRACE[1], traces[0], wrong_value, name="one recorded field value changed", ncases=60)
+    tests.append((traces[0], wrong_value, "one recorded field value changed", 60))
 
     def swallow_error(recs):
         recs = clean(recs)
@@ -151,8 +180,7 @@ def run(ctx):
                 r["fields"] = [{"k": "v", "s": ["0"]}]
                 return recs
         return recs
-    lib.self_test(ctx, TRACE[0], TRACE[1], traces[1 % len(traces)], swallow_error,
-                  name="a required-missing error replaced by a silent zero", ncases=400)
+    tests.append((traces[1 % len(traces)], swallow_error, "a required-missing error replaced by a silent zero", 400))
 
     def warm_differs(recs):
         recs = clean(recs)
@@ -168,8 +196,7 @@ def run(ctx):
                     return recs
                 first[key] = r
         return recs
-    lib.self_test(ctx, TRACE[0], TRACE[1], traces[2 % len(traces)], warm_differs,
-                  name="warm-cache result differs from the cold-cache result", ncases=60)
+    tests.append((traces[2 % len(traces)], warm_differs, "warm-cache result differs from the cold-cache result", 60))
 
     def drop_firstuse(recs):
         recs = clean(recs)
@@ -178,7 +205,9 @@ def run(ctx):
                 del recs[i]
                 return recs
         return recs
-    lib.self_test(ctx, TRACE[0], TRACE[1], traces[3 % len(traces)], drop_firstuse, name="FirstUse event dropped", ncases=20)
+    tests.append((traces[3 % len(traces)], drop_firstuse, "FirstUse event dropped", 20))
+
+    _self_tests(ctx, tests)
 
     # 6. evidence
     kinds, binds, nontriv, types, idents = {}, 0, 0, 0, 0
